@@ -91,11 +91,15 @@ def shapes(rng):
         ("file", T_file(b"i am a file")),
         ("opts-is-dir", T_dir([("default.opts", T_dir())])),
         ("opts-is-dir+x", T_dir([("default.opts", T_dir()), ("x", T_file(b"x"))])),
+        # hidden entries: a directory holding only dot-files is NOT empty
+        ("dot-only", T_dir([(".env", T_file(b"SECRET=1\n")), (".git", T_dir([("HEAD", T_file(b"ref: x\n"))]))])),
+        ("dot-file", T_dir([(".keep", T_file(b""))])),
+        ("dotdot-names", T_dir([("..x", T_file(b"1")), ("...", T_file(b"2"))])),
     ]
 
 
 FOREIGN = {"bad-info", "bad-info+opts", "empty-info", "info-is-dir", "foreign", "foreign-nested", "nested-empty",
-           "file"}
+           "file", "dot-only", "dot-file", "dotdot-names"}
 
 
 def gen_histories(ctx):
@@ -214,8 +218,8 @@ def e2e(ctx, objdir):
     uft = os.path.join(objdir, "uftrace")
     steps, hists = [], []
     sh_ = shapes(ctx.rng)
-    picks = [(a, b) for a in sh_ for b in sh_ if a[0] in ("foreign", "file", "udata", "empty", "absent", "bad-info+opts", "opts-only")
-             and b[0] in ("absent", "foreign", "udata", "file")]
+    picks = [(a, b) for a in sh_ for b in sh_ if a[0] in ("foreign", "file", "udata", "empty", "absent", "bad-info+opts", "opts-only", "dot-only")
+             and b[0] in ("absent", "foreign", "udata", "file", "dot-file")]
     if not ctx.thorough():
         picks = picks[::2]
     for a, b in picks:
@@ -244,6 +248,35 @@ def e2e(ctx, objdir):
                 ctx.violation("record created stray entries next to DIR: %s" % others, {"DIR": a[0], "DIR.old": b[0]}, True)
         hists.append((first, (snapshot(d, True), snapshot(o, True))))
         ctx.case(key=("e2e", a[0], b[0]), tags=["e2e:DIR=" + a[0], "e2e:OLD=" + b[0]])
+    # --host path: record stages into DIR, sends, then removes its own staging directory
+    import socket
+    sk = socket.socket()
+    sk.bind(("127.0.0.1", 0))
+    port = sk.getsockname()[1]
+    sk.close()                      # nothing listens on this port: connecting fails
+    hpicks = [(a, b) for a in sh_ for b in sh_ if a[0] in ("foreign", "file", "dot-only", "udata", "absent", "bad-info+opts")
+              and b[0] in ("absent", "foreign")]
+    for a, b in hpicks:
+        work = os.path.join(root, "wh")
+        if os.path.exists(work):
+            shutil.rmtree(work)
+        os.mkdir(work)
+        d, o = os.path.join(work, "DIR"), os.path.join(work, "DIR.old")
+        materialise(d, a[1])
+        materialise(o, b[1])
+        first = (snapshot(d, True), snapshot(o, True))
+        rc, out, err = sh(["timeout", "30", uft, "record", "--no-pager", "--no-event", "--libmcount-path=" + objdir,
+                           "--host", "127.0.0.1", "--port", str(port), "-d", d, exe], timeout=60, cwd=work)
+        if rc == 124:
+            ctx.violation("uftrace record --host did not terminate", {"DIR": a[0], "DIR.old": b[0]}, True)
+            continue
+        end = (snapshot(d, True), snapshot(o, True))
+        hists.append((first, end))
+        if a[0] in FOREIGN and (rc == 0 or end[0] != first[0]):
+            ctx.violation("record --host on a foreign DIR: foreign data changed or the run did not fail (rc=%d)" % rc,
+                          {"mode": "e2e-host", "DIR": a[0], "DIR.old": b[0],
+                           "before": jsonable(first[0]), "after": jsonable(end[0])}, True)
+        ctx.case(key=("e2e-host", a[0], b[0]), tags=["e2e-host:DIR=" + a[0], "e2e-host:OLD=" + b[0]])
     # live mode: removes only its own temporary directory
     work = os.path.join(root, "live")
     os.mkdir(work)
